@@ -166,3 +166,17 @@ def warm_up(k: int, base=None, derived=None) -> str:
     list(n.findall("//ZL")), n.replace(origin=O_A23)
     NODE_REGISTRY.clear()
     return kind
+
+
+def deep_chain(depth: int, leaf_origin=None, bottom_origin=None):
+    """A single-path tree `depth` levels deep (beyond the interpreter's recursion limit), built bottom-up without
+    recursion: leaf ZL, then alternately ZU (required child) and ZO (optional child, falsy).  Returns (root, nodes from
+    the root down to the leaf)."""
+    x = ZL(1) if leaf_origin is None else ZL(1, origin=leaf_origin)
+    nodes = [x]
+    for i in range(depth):
+        kw = {"origin": bottom_origin} if (i == 0 and bottom_origin is not None) else {}
+        x = ZO(c=x, **kw) if i % 2 else ZU(c=x, **kw)
+        nodes.append(x)
+    nodes.reverse()
+    return x, nodes
